@@ -1,7 +1,7 @@
 (* Walk.v — the two twelve-fold unrolled month walks (ordinal -> month/day, month/day-ordinal -> ordinal)
    against the month sums of the specification. *)
 From JV Require Import Sem Gen Spec SpecX.
-From JV.Proofs Require Import SpecFacts GapFacts Cal Cmp Inner Year MonthGeom Shape Month MonthSpec SpecSums.
+From JV.Proofs Require Import SpecFacts GapFacts Cal Cmp Inner Year MonthGeom Shape Month MonthSpec SpecSums Meq.
 Import ListNotations.
 Open Scope Z_scope.
 Ltac Zify.zify_post_hook ::= Z.to_euclidean_division_equations.
@@ -27,13 +27,17 @@ Fixpoint gwalk (self : Calendar) (year : Z) (ms : list Month) (days : Z) (k : Z 
   | [] => k days
   | m :: rest => walk_step self year m days (fun d => gwalk self year rest d k)
   end.
-Lemma ordinal2ymddo_unfold self year ordinal :
+Lemma ordinal2ymddo_unfold self year ordinal : 0 <= ordinal ->
   Calendar_ordinal2ymddo self year ordinal =
   (t0 <- Calendar_year_length self year;;
    if (ordinal <? 1) || (t0 <? ordinal)
    then Ret (Err (DateError_OrdinalOutOfRange year ordinal t0))
    else gwalk self year all_months ordinal (fun _ => Panic)).
-Proof. reflexivity. Qed.
+Proof.
+  intros Hu.
+  first [ reflexivity
+        | unfold Calendar_ordinal2ymddo, all_months; cbn [gwalk]; unfold walk_step; timeout 600 meq ].
+Qed.
 
 (* the month and in-month position of the o-th date of a year *)
 
@@ -102,7 +106,7 @@ Proof. reflexivity. Qed.
 Lemma ordinal2ymddo_ok c y o : ValidCal c -> in_i32 y -> in_u32 o ->
   Calendar_ordinal2ymddo (cal_of c) y o = Ret (ymddo_spec c y o).
 Proof.
-  intros V Hy Ho. rewrite ordinal2ymddo_unfold. rewrite year_length_ok by assumption. cbn [bind]. unfold ymddo_spec.
+  intros V Hy Ho. rewrite ordinal2ymddo_unfold by (unfold in_u32 in Ho; lia). rewrite year_length_ok by assumption. cbn [bind]. unfold ymddo_spec.
   destruct ((o <? 1) || (year_count c y <? o)) eqn:E; [reflexivity|].
   rewrite gwalk_ok; try assumption; try lia; [|reflexivity].
   rewrite all_months_discr. fold (locate c y o).
@@ -125,7 +129,17 @@ Fixpoint ywalk (self : Calendar) (year : Z) (month : Month) (day_ordinal : Z) (m
   end.
 Lemma ymdo2ordinal_unfold self year month day_ordinal :
   Calendar_ymdo2ordinal self year month day_ordinal = ywalk self year month day_ordinal all_months 0.
-Proof. reflexivity. Qed.
+Proof.
+  (* equal up to the order of the operands of the month comparison: bring every comparison into the form
+     [Month_discr month =? constant] on both sides; the rest is the same twelve-fold chain *)
+  first [ reflexivity
+        | unfold Calendar_ymdo2ordinal, all_months; cbn [ywalk]; unfold ystep, Month_eq;
+          rewrite ?(Z.eqb_sym (Month_discr Month_January)), ?(Z.eqb_sym (Month_discr Month_February)), ?(Z.eqb_sym (Month_discr Month_March)),
+                  ?(Z.eqb_sym (Month_discr Month_April)), ?(Z.eqb_sym (Month_discr Month_May)), ?(Z.eqb_sym (Month_discr Month_June)),
+                  ?(Z.eqb_sym (Month_discr Month_July)), ?(Z.eqb_sym (Month_discr Month_August)), ?(Z.eqb_sym (Month_discr Month_September)),
+                  ?(Z.eqb_sym (Month_discr Month_October)), ?(Z.eqb_sym (Month_discr Month_November)), ?(Z.eqb_sym (Month_discr Month_December));
+          reflexivity ].
+Qed.
 
 Lemma ywalk_ok c y month p n result : ValidCal c -> in_i32 y -> 0 <= p <= 1000 -> (n <= 12)%nat ->
   let k := 13 - Z.of_nat n in
